@@ -107,7 +107,7 @@ theorem build_filter_inv (inp cond : Ast) (fl : Flags)
     (st : BState) (o : BOut) (h : build regexOk limit snt sdf (.filter inp cond) fl st = .ok o) :
     ∃ st1 io co,
       build regexOk limit snt sdf inp { fl with filter := true, smartDesc := fl.smartDesc && sdf } st1 = .ok io ∧
-      build regexOk limit snt sdf cond fl io.st = .ok co ∧
+      build regexOk limit snt sdf cond fl ⟨io.st.depth, io.st.firstInput, io.st.firstInput⟩ = .ok co ∧
       (co.props.hasLast = false →
         (o.q = .filter io.q co.q ∨
           (inp.isAxis = true ∧ ∃ parent, io.q.inputOf = some parent ∧
